@@ -372,6 +372,25 @@ class Body:
                     work.append(s)
         return seen
 
+    def reach_to(self, targets, avoid=()):
+        """blocks from which some block of `targets` is reachable (inclusive), not passing through `avoid`"""
+        avoid = set(avoid)
+        seen = set()
+        work = [t for t in targets if t not in avoid]
+        while work:
+            b = work.pop()
+            if b in seen:
+                continue
+            seen.add(b)
+            for p in self.pred(b):
+                if p not in seen and p not in avoid and not self.blocks[p].get("cleanup"):
+                    work.append(p)
+        return seen
+
+    def between(self, a, b):
+        """blocks lying on some path a ->* b (inclusive of both ends)"""
+        return self.reach_from([a]) & self.reach_to([b])
+
     def reach_after(self, bb, avoid=()):
         """blocks reachable strictly after leaving bb"""
         return self.reach_from(self.succ(bb), avoid)
